@@ -314,6 +314,18 @@ func (c *Context) HandleEnvelop(envelop vivid.Envelop) {
 		return
 	}
 
+	// 根 Actor 的邮箱是 findMailbox 的兜底：收件人并非根 Actor 的消息（目标不存在或已终止）应进入死信，
+	// 而不是交给根 Actor 自身的行为处理（那样消息会被静默丢弃）
+	if c.parent == nil {
+		if receiver, ok := envelop.Receiver().(*Ref); ok && receiver != nil && !c.ref.Equals(receiver) {
+			c.system.TellSelf(ves.DeathLetterEvent{
+				Envelope: envelop,
+				Time:     time.Now(),
+			})
+			return
+		}
+	}
+
 	// 处理消息
 	// 对于僵尸状态，用户逻辑都是执行过的，不应该再继续执行，否则可能会导致异常状态扩散
 	// 僵尸状态的消息处理仅用作能正确的确保 Actor 被释放
